@@ -105,6 +105,56 @@ AffineMoment(d0, loc, scale, k) ==
     QSum(LAMBDA j : QMul(QMul(QInt(Binom(k, j)), QPow(loc, k - j)), QMul(QPow(scale, j), Moment(d0, j))), 0, k)
 
 ----------------------------------------------------------------------------
+(* expansions from cumulants k_1..k_K (sigma^2 = k_2, sigma rational)      *)
+
+\* raw moment of order j from the cumulants: sum over the set partitions of {1..j} of the product of k_|B|
+MaxUpTo(f, i) == IF i = 0 THEN 0 ELSE Max({f[t] : t \in 1..i})
+RGS(j) == {f \in [1..j -> 1..j] : \A i \in 1..j : f[i] <= MaxUpTo(f, i - 1) + 1}
+BlockSize(f, b) == Cardinality({i \in DOMAIN f : f[i] = b})
+RawFromCumulants(ks, j) ==
+    IF j = 0 THEN QOne
+    ELSE FoldSet(LAMBDA f, acc : QAdd(acc, FoldSet(LAMBDA b, pr : QMul(pr, ks[BlockSize(f, b)]), QOne, 1..MaxUpTo(f, j))),
+                 QZero, RGS(j))
+
+\* Gram-Charlier: density = P(x) * normal density(mu, s2);  integral of x^j * density by the normal moments
+GCMoment(g, j) ==
+    LET nd == [f |-> "normal", mu |-> g.cumulants[1], s2 |-> g.cumulants[2]]
+    IN  FoldSet(LAMBDA t, acc : QAdd(acc, QMul(g.poly[t].c, Moment(nd, g.poly[t].e + j))), QZero, 1..Len(g.poly))
+GCFails(g) ==
+    LET K == Len(g.cumulants)
+        bad == {j \in 0..K : ~QEq(GCMoment(g, j), RawFromCumulants(g.cumulants, j))}
+    IN  IF bad = {} THEN <<>> ELSE <<[k |-> -1, clause |-> "gram-charlier", orders |-> bad]>>
+
+\* Cornish-Fisher: the standard expansion of the standardised quantile w(z) in terms of
+\* g1 = k3/sigma^3, g2 = k4/sigma^4, g3 = k5/sigma^5 (Cornish & Fisher 1937; Abramowitz-Stegun 26.2.49):
+\*   z + g1 (z^2-1)/6 + g2 (z^3-3z)/24 - g1^2 (2z^3-5z)/36
+\*     + g3 (z^4-6z^2+3)/120 - g1 g2 (z^4-5z^2+2)/24 + g1^3 (12z^4-53z^2+17)/324
+\* as a coefficient vector for z^0..z^4 (orders present according to the number of cumulants)
+CFStandard(c) ==
+    LET K == Len(c.cumulants)
+        sg == c.sigma
+        g(r) == IF K >= r THEN QMul(c.cumulants[r], QInv(QPow(sg, r))) ELSE QZero
+        g1 == g(3)  g2 == g(4)  g3 == g(5)
+        q(a, b) == Q(ZFromInt(a), ZFromInt(b))
+        \* the expansion is truncated by order: bracket r is present when K >= r + 2
+        b2(x) == IF K >= 4 THEN x ELSE QZero
+        b3(x) == IF K >= 5 THEN x ELSE QZero
+        c0 == QAdd(QMul(g1, q(-1, 6)),
+                   b3(QAdd(QMul(g3, q(3, 120)), QAdd(QMul(QMul(g1, g2), q(-2, 24)), QMul(QPow(g1, 3), q(17, 324))))))
+        c1 == QAdd(QOne, b2(QAdd(QMul(g2, q(-3, 24)), QMul(QPow(g1, 2), q(5, 36)))))
+        c2 == QAdd(QMul(g1, q(1, 6)),
+                   b3(QAdd(QMul(g3, q(-6, 120)), QAdd(QMul(QMul(g1, g2), q(5, 24)), QMul(QPow(g1, 3), q(-53, 324))))))
+        c3 == b2(QAdd(QMul(g2, q(1, 24)), QMul(QPow(g1, 2), q(-2, 36))))
+        c4 == b3(QAdd(QMul(g3, q(1, 120)), QAdd(QMul(QMul(g1, g2), q(-1, 24)), QMul(QPow(g1, 3), q(12, 324)))))
+    IN  <<c0, c1, c2, c3, c4>>
+CFFails(c) ==
+    LET std == CFStandard(c)
+        got(e) == FoldSet(LAMBDA t, acc : IF c.poly[t].e = e THEN QAdd(acc, c.poly[t].c) ELSE acc, QZero, 1..Len(c.poly))
+        bad == {e \in 0..4 : ~QEq(got(e), std[e + 1])} \cup {c.poly[t].e : t \in {u \in 1..Len(c.poly) : c.poly[u].e > 4}}
+    IN  (IF QEq(QMul(c.sigma, c.sigma), c.cumulants[2]) THEN <<>> ELSE <<[k |-> -1, clause |-> "sigma"]>>)
+        \o (IF bad = {} THEN <<>> ELSE <<[k |-> -1, clause |-> "cornish-fisher", powers |-> bad]>>)
+
+----------------------------------------------------------------------------
 (* trace: one row per (distribution, order)                                *)
 VARIABLES tid, k, fails, done
 vars == <<tid, k, fails, done>>
@@ -136,12 +186,18 @@ HeadFails ==
                   ~QEq(AffineMoment(Tr.affine.d0, Tr.affine.loc, Tr.affine.scale, kk), Moment(d, kk))
             THEN <<[k |-> -1, clause |-> "affine-lemma"]>> ELSE <<>>)
 
-Init == /\ tid \in 1..Len(Batch.traces) /\ k = 0 /\ fails = HeadFails \o RowFails(0) /\ done = FALSE
-Step == /\ ~done /\ k < Len(Tr.rows) - 1 /\ k' = k + 1 /\ fails' = fails \o RowFails(k + 1) /\ UNCHANGED <<tid, done>>
-Finish == /\ ~done /\ k = Len(Tr.rows) - 1
+ExpansionFails == (IF "gc" \in DOMAIN Tr THEN GCFails(Tr.gc) ELSE <<>>) \o (IF "cf" \in DOMAIN Tr THEN CFFails(Tr.cf) ELSE <<>>)
+IsExpansion == "gc" \in DOMAIN Tr \/ "cf" \in DOMAIN Tr
+
+Init == /\ tid \in 1..Len(Batch.traces) /\ k = 0
+        /\ fails = (IF IsExpansion THEN ExpansionFails ELSE HeadFails \o RowFails(0))
+        /\ done = FALSE
+LastRow == IF IsExpansion THEN 0 ELSE Len(Tr.rows) - 1
+Step == /\ ~done /\ k < LastRow /\ k' = k + 1 /\ fails' = fails \o RowFails(k + 1) /\ UNCHANGED <<tid, done>>
+Finish == /\ ~done /\ k = LastRow
           /\ JsonSerialize(IOEnv.OUT_DIR \o "/" \o Tr.id \o ".json", [id |-> Tr.id, rows |-> k + 1, fails |-> fails])
           /\ done' = TRUE /\ UNCHANGED <<tid, k, fails>>
 Next == Step \/ Finish
 Spec == Init /\ [][Next]_vars
-TypeOK == k \in 0..(Len(Tr.rows) - 1)
+TypeOK == k \in 0..LastRow
 =============================================================================
